@@ -39,7 +39,8 @@ def make_target(d, kind, seed):
         for i, nm in enumerate(names):
             with open(os.path.join(d, nm), "wb") as f:
                 f.write(img if i % 2 == 0 else container.opaque_payload(seed + i, 50 + i))
-        p = os.path.join(d, {"absent": "target.tdf", "absent-no-suffix": "walk", "absent-other-suffix": "walk.dat", "absent-upper-suffix": "walk.TDF"}[kind])
+        p = os.path.join(d, {"absent": ["target.tdf", "t\u00e4rget \u20ac.tdf", "name with space .tdf", "~tilde.tdf", "x" * 200 + ".tdf"][seed % 5],
+                             "absent-no-suffix": "walk", "absent-other-suffix": "walk.dat", "absent-upper-suffix": "walk.TDF"}[kind])
         return p, None
     if kind == "directory":
         os.mkdir(p)
@@ -122,6 +123,18 @@ def check_fresh_container(ctx, what, data):
             ctx.fail(f"{what}/slot", f"{what}: slot {i} is type {e['type']} format {e['format']} offset {e['offset']} size {e['size']} (expected an unused slot pointing at 4096)")
     for key, msg in reftdf.well_formed_problems(p) + reftdf.compact_problems(p):
         ctx.fail(f"{what}/{key}", f"{what}: {msg}")
+    if any(p["reserved1"]) or any(p["reserved2"]):
+        ctx.fail(f"{what}/reserved-not-zero", f"{what}: reserved header bytes are not zero: {p['reserved1'].hex()} {p['reserved2'].hex()}")
+    for i, e in enumerate(p["entries"]):
+        if any(e["pad"]):
+            ctx.fail(f"{what}/entry-pad-not-zero", f"{what}: pad word of slot {i} is {e['pad'].hex()}")
+        if e["comment"] is None or any(e["comment_raw"][len(e["comment"].encode("cp1252")):]):
+            ctx.fail(f"{what}/entry-comment-not-clean", f"{what}: comment field of slot {i} is not NUL padded text")
+
+
+def _in_plain_context(t, blk):
+    with t as f:
+        f.add_block(blk)
 
 
 def new_strategy(tier):
@@ -150,7 +163,34 @@ def run_new(ctx, case):
             if exc is not None:
                 ctx.fail("new/absent-refused", f"Tdf.new on a fresh path raised {type(exc).__name__}: {exc}")
             else:
-                check_fresh_container(ctx, "new", open(p, "rb").read())
+                import stat
+                import time
+
+                data_new = open(p, "rb").read()
+                check_fresh_container(ctx, "new", data_new)
+                pc = reftdf.parse_container(data_new)
+                now = int(time.time())
+                stamps = list(pc["dates"]) + [e[k] for e in pc["entries"] for k in ("cdate", "mdate", "adate")]
+                if not all(now - 120 <= x <= now + 2 for x in stamps):
+                    ctx.fail("new/dates-not-creation-time", f"new file: header / slot dates {sorted(set(stamps))[:4]} are not the creation time ({now})")
+                probe = os.path.join(d, "mode-probe.bin")
+                with open(probe, "wb"):
+                    pass
+                if stat.S_IMODE(os.stat(p).st_mode) != stat.S_IMODE(os.stat(probe).st_mode):
+                    ctx.fail("new/file-mode", f"new file has permission bits {oct(stat.S_IMODE(os.stat(p).st_mode))}, an ordinarily created file {oct(stat.S_IMODE(os.stat(probe).st_mode))}")
+                os.unlink(probe)
+                # the returned object is a plain, closed, read-only handle on the new file
+                from .c07 import labelled_spec
+
+                blk = specs.build(labelled_spec("events", 1))
+                for how, fn in (("no-context", lambda: t.add_block(blk)), ("plain-context", lambda: _in_plain_context(t, blk))):
+                    try:
+                        fn()
+                        ctx.fail(f"new/returned-object-writable-{how}", f"the object returned by Tdf.new accepts add_block ({how}) without allow_write()")
+                    except Exception:  # noqa
+                        pass
+                if open(p, "rb").read() != data_new:
+                    ctx.fail("new/returned-object-wrote", "a refused mutation through the object returned by Tdf.new changed the file")
                 with t as f:
                     if len(f.entries) != 14 or len(f) != 0:
                         ctx.fail("new/open-after-create", f"new file opens with {len(f.entries)} entries, {len(f)} live")
